@@ -77,7 +77,7 @@ def expand(spec):
     p["policy"] = rng.choice(["uniform", "round_robin", "starve", "burst", "eager", "eager"])
     p["max_trials"] = rng.randint(4, 40)
     p["max_events"] = rng.randint(60, 600)
-    p["space"] = gen.small_space(rng, ensure_infinite=True)
+    p["space"] = gen.small_space(rng, ensure_infinite=True, ordinal_kinds=("equal",))
     p["use_mra"] = rng.random() < 0.5
     p["checkpointing"] = rng.random() < 0.6
     if p["type"] == "rush_promotion":
